@@ -28,7 +28,7 @@ theorem spender_some (c : Credit) (dk : CredKey) (h : spender c = .ok (some dk))
 theorem scanCredit_keeps_credit (limit : Nat) (addrs : List Addr) (sc : Scan) (e x : CredKey × Credit)
     (hx : x ∈ sc.s.credits) (hne : addrs.contains e.2.sh = true → x.1 ≠ e.1) :
     x ∈ (scanCredit limit addrs sc e).s.credits := by
-  rcases scanCredit_cases limit addrs sc e with h | h | h | ⟨_, _, hm, d, _, h⟩ <;> rw [h]
+  rcases scanCredit_cases limit addrs sc e with h | ⟨_, h⟩ | h | ⟨_, _, hm, d, _, h⟩ <;> rw [h]
   · exact hx
   · exact hx
   · exact hx
@@ -40,7 +40,7 @@ theorem scanCredit_keeps_debit (limit : Nat) (addrs : List Addr) (sc : Scan) (e 
     (x : CredKey × (Nat × CredKey)) (hx : x ∈ sc.s.debits)
     (hne : addrs.contains e.2.sh = true → ∀ dk, e.2.spentBy = some dk → x.1 ≠ dk) :
     x ∈ (scanCredit limit addrs sc e).s.debits := by
-  rcases scanCredit_cases limit addrs sc e with h | h | h | ⟨_, _, hm, d, hd, h⟩ <;> rw [h]
+  rcases scanCredit_cases limit addrs sc e with h | ⟨_, h⟩ | h | ⟨_, _, hm, d, hd, h⟩ <;> rw [h]
   · exact hx
   · exact hx
   · exact hx
@@ -292,5 +292,60 @@ theorem removable_mono (own : Own) (s s' : Store) (addrs : List Addr) (tx : Tx)
   rcases h with h | h
   · exact Or.inl h
   · exact Or.inr (spends_mono s s' addrs tx hc hp h)
+
+
+-- ------------------------------------------------------------------ pending transactions
+
+theorem unminedStep_cases (own : Own) (addrs : List Addr) (acc : Store × List TxId) (h : TxId) :
+    unminedStep own addrs acc h = acc ∨ ∃ tx, AMap.get acc.1.pending h = some tx ∧ removable own acc.1 addrs tx = true ∧
+      unminedStep own addrs acc h = ({ acc.1 with pending := AMap.erase acc.1.pending h }, acc.2 ++ [h]) := by
+  unfold unminedStep
+  split
+  · exact Or.inl rfl
+  · rename_i tx htx
+    split
+    · rename_i hrem; exact Or.inr ⟨tx, htx, hrem, rfl⟩
+    · exact Or.inl rfl
+
+theorem get_of_mem_functional {K V : Type} [DecidableEq K] (m : AMap.T K V) (hf : Functional m) (e : K × V) (he : e ∈ m) :
+    AMap.get m e.1 = some e.2 := by
+  induction m with
+  | nil => cases he
+  | cons a m ih =>
+    rw [AMap.get_cons]
+    by_cases hak : a.1 = e.1
+    · have : a = e := hf a e (List.mem_cons_self ..) he hak
+      subst this; simp
+    · simp only [hak, if_false]
+      rcases List.mem_cons.1 he with rfl | he'
+      · exact absurd rfl hak
+      · exact ih (fun x y hx hy => hf x y (List.mem_cons_of_mem _ hx) (List.mem_cons_of_mem _ hy)) he'
+
+/-- a pending transaction that is not removable survives the unmined half of RemoveRelevantTx -/
+theorem unminedTxs_kept (own : Own) (s : Store) (addrs : List Addr) (hs : List TxId) (hfun : Functional s.pending)
+    (x : TxId × Tx) (hx : x ∈ s.pending) (hneeded : removable own s addrs x.2 = false) :
+    x ∈ (removeUnminedTxs own s addrs hs).1.pending := by
+  unfold removeUnminedTxs
+  have key : ∀ (l : List TxId) (acc : Store × List TxId), acc.1.credits = s.credits → acc.1.pendCred = s.pendCred →
+      (∀ y ∈ acc.1.pending, y ∈ s.pending) → x ∈ acc.1.pending →
+      x ∈ (l.foldl (unminedStep own addrs) acc).1.pending := by
+    intro l
+    induction l with
+    | nil => intro acc _ _ _ hxa; exact hxa
+    | cons a l ih =>
+      intro acc hc hp hsub hxa
+      simp only [List.foldl_cons]
+      rcases unminedStep_cases own addrs acc a with h | ⟨tx, hg, hrem, h⟩ <;> rw [h]
+      · exact ih acc hc hp hsub hxa
+      · refine ih _ hc hp (fun y hy => hsub y (erase_subset _ _ _ hy)) ?_
+        apply mem_erase_of_ne _ _ _ hxa
+        intro heq
+        have hfa : Functional acc.1.pending := fun e e' he he' => hfun e e' (hsub e he) (hsub e' he')
+        have := get_of_mem_functional acc.1.pending hfa x hxa
+        rw [heq, hg] at this
+        cases this
+        rw [removable_congr own s acc.1 addrs x.2 hc hp, hneeded] at hrem
+        cases hrem
+  exact key hs (s, []) rfl rfl (fun y hy => hy) hx
 
 end MW.Lemmas.RemoveFrame
